@@ -201,7 +201,7 @@ def _from_residual(ctx, a, ty, c):
     v, name = enum_variant(ctx, ctx.as_agg(a[0]))
     e = payload(ctx, v)
     # `?` converts the error with From; identical types in all targets, or crate-local From
-    m = re.match(r"^<std::result::Result<(.*)> as FromResidual<std::result::Result<Infallible, (.*)>>>::from_residual$", c, re.S)
+    m = re.match(r"^<Result<(.*)> as FromResidual<Result<Infallible, (.*)>>>::from_residual$", c, re.S)
     if m:
         outer = [x for x in __import__("mirsmt.mir", fromlist=["x"]).split_top(m.group(1))]
         if len(outer) == 2 and outer[1].strip() != m.group(2).strip():
